@@ -333,11 +333,13 @@ func drawKSUID(t *rapid.T, label string) string {
 var indexEdges = []uint64{0, 1, 9, 10, 999, 1000, 1 << 31, 1<<32 - 1, 1 << 32, 1<<63 - 1, 1 << 63, 1<<64 - 1}
 
 func drawIndex(t *rapid.T, label string) uint64 {
-	switch rapid.IntRange(0, 3).Draw(t, label+"_shape") {
+	switch rapid.IntRange(0, 4).Draw(t, label+"_shape") {
 	case 0:
 		return rapid.SampledFrom(indexEdges).Draw(t, label+"_edge")
 	case 1:
 		return uint64(rapid.IntRange(0, 2000).Draw(t, label+"_small"))
+	case 2: // upper half, which rapid.Uint64 (biased to short bit widths) hardly reaches
+		return math.MaxUint64 - rapid.Uint64Range(0, 1<<63-1).Draw(t, label+"_high")
 	}
 	return rapid.Uint64().Draw(t, label)
 }
